@@ -73,6 +73,10 @@ CHECKS = {
    text="Real xcrd.ForCompositeResource/ForCompositeResourceClaim, XRD Validate/ValidateUpdate and the real XRD admission webhook (over sim) run on thousands of generated XRDs and (old,new) pairs; outputs compared with an independent oracle and golden machinery schemas. Held on the generated inputs.",
    note="Trusted: golden/machinery_*.json (reviewed dump of the machinery schema); the generator's schema grammar; sim accepts any CRD body on dry-run so webhook denials come only from Crossplane's validation.",
    technique="runtime monitoring: generated inputs against a reference oracle + golden machinery schema", ref="3/C11"),
+ "C19": dict(cat="exploration",
+   text="The real usage webhook handler (registered through the fake manager, invoked over its HTTP interface with AdmissionReview requests built from the rules and objectSelector parsed from cluster/webhookconfigurations/usage.yaml) and the real usage reconciler over sim: 16 fixed scenarios with a fault at every call of every usage reconcile (x6 outcomes) and of every webhook invocation (x4), exhaustive two-party preemption enumeration (every split of A and B at API-call granularity) for 11 races, and seeded random schedules with users creating/deleting Usages and resources (every propagation policy, a second served version), the GC actor and faults; oracles on every store state and every DELETE attempt (refused iff a Ready non-deleting Usage names it, attempt recorded, label before Ready, label removed only by the last Usage, owner reference to the using resource and release after the user is gone).",
+   note="Trusted: " + SIM + "; the admission wiring built from usage.yaml; usage controller reads are modelled as fresh; replayDeletion (background goroutine with a sleep) is excluded.",
+   technique="runtime monitoring: admission-response and store oracles over enumerated preemptions, fault enumeration and scheduled interleavings", ref="3/C19"),
  "C20": dict(cat="fault_enumeration",
    text="The init step list of cmd/crossplane/core/init.go rebuilt from the exported constructors over sim and the repository's CRD / webhook yaml: 10 initial stores (empty, partially / fully initialised, secrets with keys missing, stale CA bundles, user-edited defaults, packages pre-installed under custom names in every reference form), runs 1..3, and an API error (500, timeout, applied-but-504) at every call index of a run (sampled in quick) followed by a clean rerun; oracles: run n == run 1, key material never regenerated, issued certificates verify against the stored CA and cover the service DNS names, <=1 package per image repository, defaults untouched, every webhook-conversion CRD and webhook configuration carries the current CA bundle.",
    note="Trusted: " + SIM + "; the harness's own image-reference parser and x509 verification; one synthetic webhook-conversion CRD is added to exercise CA injection.",
